@@ -1,7 +1,7 @@
 package main
 
-// Certificates computed from the tables. Nothing here is trusted: Csvq/Lemmas/LalrCert.lean re-checks every one of them
-// against the arrays with a Bool checker evaluated by the kernel, and the theorems only use what the checker establishes.
+// Certificates computed from the tables. Nothing here is trusted: Csvq/Lemmas/LalrCheck.lean re-checks every one of them
+// against the tables with a Bool checker evaluated by the kernel, and the theorems only use what the checker establishes.
 //
 //	below[u]  : bit mask of the states that may lie directly below u on the state stack (the edge relation E, as predecessors)
 //	depth[u]  : a lower bound of the number of entries below u (d(0) = 0, d(u) ≤ d(t)+1 for every t ∈ below[u])
@@ -13,8 +13,6 @@ import (
 	"os"
 	"sort"
 )
-
-var _ = hexOfBits
 
 type tables struct {
 	exca, act, pact, pgo, r1, r2, chk, def []int
@@ -356,16 +354,6 @@ func computeCert(t *tables) *cert {
 			n, edges, unreachable, len(all), sum, nLight, maxRank, maxR2)
 	}
 	return &cert{below, depth, weight, rank, c + maxRank}
-}
-
-func hexOfBits(bits []bool) string {
-	v := new(big.Int)
-	for i, b := range bits {
-		if b {
-			v.SetBit(v, i, 1)
-		}
-	}
-	return "0x" + v.Text(16)
 }
 
 func emitCertificates(pf *file) {
